@@ -265,6 +265,16 @@ def argparse_function(
                                                     "return_type"
                                                 ]["default"]
                                             )
+                                            # a plain constant (`return parser, 5`) or '', not source text
+                                            or not intermediate_repr["returns"][
+                                                "return_type"
+                                            ]["default"]
+                                            or not isinstance(
+                                                intermediate_repr["returns"][
+                                                    "return_type"
+                                                ]["default"],
+                                                str,
+                                            )
                                             else ast.parse(
                                                 intermediate_repr["returns"][
                                                     "return_type"
